@@ -166,6 +166,23 @@ def parallelFunction {α ε β} (configCpus : Nat) (f : α → Except ε β) (ar
     -- TimeoutError → `timeouts = True` → RuntimeError; everything else propagates
     poolRun f args cpus hasTimeout evs
 
+/-- a call as a worker *process* performs it: the argument is what the worker unpickles from the
+    task queue (`pa` = unpickle ∘ pickle on arguments), the result or exception is what the
+    parent unpickles from the result queue (`pb`, `pe`) -/
+def overWire {α ε β} (pa : α → α) (pb : β → β) (pe : ε → ε) (f : α → Except ε β) : α → Except ε β :=
+  fun a =>
+    match f (pa a) with
+    | .ok b => .ok (pb b)
+    | .error e => .error (pe e)
+
+/-- `parallel_function` with the process boundary made explicit: the single-cpu path calls
+    `function` on the caller's own objects, the pool path on pickled copies -/
+def parallelFunctionWire {α ε β} (pa : α → α) (pb : β → β) (pe : ε → ε) (configCpus : Nat)
+    (f : α → Except ε β) (args : List α) (cpus : Nat) (hasTimeout : Bool) (evs : List Event) :
+    Outcome ε β :=
+  if resolveCpus configCpus cpus = 1 then parallelFunction configCpus f args cpus hasTimeout evs
+  else parallelFunction configCpus (overWire pa pb pe f) args cpus hasTimeout evs
+
 /-- what `execute(command)` did, as far as `child_process` looks at it -/
 inductive ExecResult (ε : Type) where
   | finished (returnCode : Int) (stderr : Bool)
